@@ -165,6 +165,12 @@ def oracle(ctx):
                 if sysn % (1 if ctx.thorough else 2) == 0:
                     units.append((f'sys{sysn}.' + ty, '[' + G.SEC[ty] + ']\n' + '\n'.join(G.BASE[ty] + [f'{key}={v}']) + '\n'))
                 sysn += 1
+    # lengths: entries far beyond any line-length limit a writer might think of (2 KiB, 4 KiB, 64 KiB), made of words that would start a
+    # comment, a section or a continuation if a line were ever broken before them — one line per entry, however long
+    for L in (2100, 4200, 9000, 70000):
+        words = ' '.join(['#c', ';s', '[X-Forged]ExecStartPost=/bin/x', 'Restart=always', 'plain', 'trail\\\\'] * (L // 60))
+        units.append((f'long{L}.container', f'[Container]\nImage=localhost/i\nPodmanArgs={words}\nExec={words}\n[Service]\nExecStartPre=/bin/echo {words}\nRestart=no\n[Unit]\nDescription={words}\n'))
+        units.append((f'long{L}.kube', f'[Kube]\nYaml=/k.yaml\nPodmanArgs={words}\n[Service]\nEnvironment={words}\n'))
     # (T1) where text reaches a unit without the value quoter: inventory regenerated from the source vs the reviewed classification
     import sys
     rc0, out0, err0 = core.sh([sys.executable, os.path.join(core.VERIF, 'tools', 'raw_sites.py'), core.REPO, os.path.join(core.BUILD, 'raw_sites.json')])
